@@ -10,7 +10,7 @@ from .c01 import shares_net
 
 PID = "C05"
 LEVEL = "exploration"
-RULE = ("Valid designs from the C01 generator (4 in 10 with all designer-chosen module-level names in upper case); the names Hdl21 invents per module (implicit port-reference and no-connect "
+RULE = ("Valid designs from the C01 generator (4 in 10 with all designer-chosen module-level names in upper case, 2 in 10 with a leading underscore on all internal names); the names Hdl21 invents per module (implicit port-reference and no-connect "
         "signals, named no-connects, flattened bundle members, array elements, pair members) are learnt from a first export; then "
         "1-4 designer objects (internal signals, ports incl. ports of sub-modules, instances, bundle instances, no-connect names) "
         "are renamed onto those names or their '_' / '__' variants, in varying declaration orders and construction styles. Oracle: "
@@ -80,6 +80,8 @@ def rename(spec, mi, kind, old, new):
             if b[0] == old:
                 isport = b[2]
                 b[0] = new
+            if len(b) > 5 and b[5] == "flipof:" + old:
+                b[5] = "flipof:" + new
         in_module(lambda e: ["bun", new] if e[0] == "bun" and e[1] == old else e)
         if isport:
             _rename_port_in_parents(s, mi, old, new)
@@ -153,6 +155,23 @@ def upcase(spec):
     return s
 
 
+def underscored(spec):
+    """The same design with every designer-chosen internal name (internal signals, instances, internal bundle instances,
+    no-connect names - not ports, which are reached by attribute access) given a leading underscore; such names can only be
+    given through add(), so all modules become procedural."""
+    s = copy.deepcopy(spec)
+    for mi, m in enumerate(s["modules"]):
+        if m.get("history"):
+            return spec
+        for kind, names in (("sig", [x[0] for x in m["sigs"] if x[2] == "sig"]), ("inst", [i["name"] for i in m["insts"]]),
+                            ("bun", [b[0] for b in m["bundles"] if not b[2]]), ("nc", sorted(nc_names(m)))):
+            for old in names:
+                rename(s, mi, kind, old, "_" + old)
+        m["style"] = "proc"
+        m.pop("bare", None)
+    return s
+
+
 def make_case(d, spec, invented):
     """Apply 1-4 adversarial renames to a copy of spec (draws through D d)."""
     s = copy.deepcopy(spec)
@@ -217,16 +236,17 @@ def shard(idx, n, tier):
     @given(st.data())
     def run(data):
         spec = data.draw(gen.designs(opts))
-        upper = data.draw(st.integers(0, 9)) < 4
-        if upper:
+        variant = data.draw(st.integers(0, 9))
+        upper = variant < 4
+        if upper or variant in (4, 5):
             feats0 = spec.get("features", [])
-            spec = upcase(spec)
+            spec = upcase(spec) if upper else underscored(spec)
             try:
                 model.flatten(spec)
             except model.ModelError as e:
                 res.harness_error("upper-cased spec is ill-formed: %s" % e)
                 return
-            spec["features"] = list(feats0) + ["upper_case_names"]
+            spec["features"] = list(feats0) + ["upper_case_names" if upper else "leading_underscore_names"]
         inv = par.pristine(learn_invented, spec)
         if par.is_exc(inv):
             res.reject("base:" + inv[1])
@@ -245,7 +265,7 @@ def shard(idx, n, tier):
             res.harness_error("%s %s %s" % (v[1], v[2], v[3][-600:]))
             return
         feats = ["rename_" + r[1] for r in case["renames"]] + ["underscore_variant" for r in case["renames"] if r[3].endswith("_")]
-        feats += [f for f in spec.get("features", []) if f in ("upper_case_names", "named_noconn", "noconn", "array", "pair", "bundle_port", "portref_root_unconnected", "bundle_conn")]
+        feats += [f for f in spec.get("features", []) if f in ("upper_case_names", "leading_underscore_names", "named_noconn", "noconn", "array", "pair", "bundle_port", "portref_root_unconnected", "bundle_conn")]
         if v["status"] == "reject":
             res.reject(v["sig"])
             res.notes["resolved_by_raising"] += 1
